@@ -50,9 +50,11 @@ class Anchors:
                 n = fv.call_node(b)
                 if is_decode(n) and len(n.kids) >= 3:
                     key = n.kids[1]
-                    if may(key, is_resolver_call):
+                    # provenance of the key, not looking behind another signature-checked decode (whose output is verified data, e.g. cnf.jwk)
+                    front = [x for x in walk(key, pred_stop=is_decode)]
+                    if any(is_resolver_call(x) for x in front):
                         kind = "issuer"
-                    elif may(key, lambda x: x.kind == "call" and x.d["term"].get("name") == "from_jwk"):
+                    elif any(x.kind == "call" and x.d["term"].get("name") == "from_jwk" for x in front):
                         kind = "kb"
                     else:
                         kind = "other"
